@@ -34,11 +34,11 @@ fn effective(world: &World, alt: &[Option<Vec<Edge>>], variants: &[bool]) -> Wor
   w
 }
 
-fn scratch(world: &World, roots: &[ModuleSpecifier], ch: &Ch) -> Option<ModuleGraph> {
+fn scratch(world: &World, roots: &[ModuleSpecifier], ch: &Ch, kind: GraphKind) -> Option<ModuleGraph> {
   let sched = Sched::new(SchedMode::Immediate);
   let loader = ScriptedLoader::new(sched);
   world.install(&loader);
-  let mut g = ModuleGraph::new(GraphKind::All);
+  let mut g = ModuleGraph::new(kind);
   build_graph(
     &mut g,
     roots.to_vec(),
@@ -166,7 +166,8 @@ fn body_with(generate: impl Fn(&Ch) -> World + Sync + Send, depth: usize) -> imp
     let r1 = world.url(1);
     // history
     let mut variants = vec![false; n_specs];
-    let mut graph = ModuleGraph::new(GraphKind::All);
+    let kind = [GraphKind::All, GraphKind::CodeOnly, GraphKind::TypesOnly][ch.choose("graph_kind", 3)];
+    let mut graph = ModuleGraph::new(kind);
     let mut roots_so_far: Vec<ModuleSpecifier> = vec![];
     let mut edited = false;
     let mut history: Vec<String> = vec![];
@@ -270,7 +271,7 @@ fn body_with(generate: impl Fn(&Ch) -> World + Sync + Send, depth: usize) -> imp
       }
       // compare with a from-scratch build of all roots on the current sources
       let cur = effective(&world, &alt, &variants);
-      let Some(fresh) = scratch(&cur, &roots_so_far, ch) else {
+      let Some(fresh) = scratch(&cur, &roots_so_far, ch, kind) else {
         break;
       };
       let mut a = obs(&graph);
@@ -280,7 +281,7 @@ fn body_with(generate: impl Fn(&Ch) -> World + Sync + Send, depth: usize) -> imp
       run.evals += 1;
       outcome.push(hash_json(&f["slots"]));
       let case = |extra: Value| {
-        json!({"world": world.describe(), "alt_imports": alt.iter().enumerate().filter_map(|(i, a)| a.as_ref().map(|e| {
+        json!({"world": world.describe(), "graph_kind": format!("{kind:?}"), "alt_imports": alt.iter().enumerate().filter_map(|(i, a)| a.as_ref().map(|e| {
             let mut w = world.clone(); w.edges = e.clone(); json!({"module": world.spec(i), "source": w.render(i).0})})).collect::<Vec<_>>(),
           "history": history, "detail": extra})
       };
@@ -379,7 +380,7 @@ fn body_with(generate: impl Fn(&Ch) -> World + Sync + Send, depth: usize) -> imp
       }
       let _ = step;
     }
-    run.state_key = hash_of(&(world.key(), format!("{alt:?}"), history.clone()));
+    run.state_key = hash_of(&(world.key(), format!("{alt:?}{kind:?}"), history.clone()));
     run.nontrivial = history.len() >= 2;
     run.outcome_key = hash_of(&outcome);
     if ch.describe() {
